@@ -1759,3 +1759,165 @@ theorem final101_rwClose (cfg : Cfg α) (st : St α) (h : Final101 st) : Final10
 
 end
 end CaddyModel.C15
+
+/-! ## a response whose header forbids encoding is never encoded -/
+namespace CaddyModel.C15
+
+section
+variable {α : Type}
+
+theorem ineligible_congr {h h' : Hdr} (e1 : hValues h kCE = hValues h' kCE) (e2 : hValues h kCC = hValues h' kCC) :
+    ineligible h = ineligible h' := by
+  unfold ineligible isEncodeAllowed
+  rw [hGet_congr e1, hGet_congr e2]
+
+/-- no encoder, a header that forbids one, nothing but plain events so far -/
+structure LeftAlone (ce cc : List Bytes) (st : St α) : Prop where
+  closed : st.encOpen = false
+  inel : ineligible st.hdr = true
+  ce_eq : hValues st.hdr kCE = ce
+  cc_eq : hValues st.hdr kCC = cc
+  plain : plainOnly st.log = true
+
+theorem LeftAlone.ext {ce cc : List Bytes} {st st' : St α} (h : LeftAlone ce cc st)
+    (h1 : st'.encOpen = st.encOpen) (h2 : hValues st'.hdr kCE = hValues st.hdr kCE)
+    (h3 : hValues st'.hdr kCC = hValues st.hdr kCC) (h4 : plainOnly st'.log = true) : LeftAlone ce cc st' :=
+  ⟨by rw [h1]; exact h.closed, by rw [ineligible_congr h2 h3]; exact h.inel, by rw [h2]; exact h.ce_eq,
+    by rw [h3]; exact h.cc_eq, h4⟩
+
+theorem plainOnly_cons {ev : Ev α} {log : List (Ev α)} (h1 : ev.plainOk = true) (h2 : plainOnly log = true) :
+    plainOnly (ev :: log) = true := by
+  simp only [plainOnly, List.all_cons, Bool.and_eq_true] at *; exact ⟨h1, h2⟩
+
+theorem la_dsWriteHeader {ce cc : List Bytes} {st : St α} (s : Nat) (h : LeftAlone ce cc st) :
+    LeftAlone ce cc (dsWriteHeader st s) :=
+  h.ext rfl rfl rfl (plainOnly_cons rfl h.plain)
+
+theorem la_rwWriteHeader {ce cc : List Bytes} {st : St α} (s : Nat) (h : LeftAlone ce cc st) :
+    LeftAlone ce cc (rwWriteHeader st s) := by
+  have h0 : LeftAlone ce cc ({ st with statusCode := s } : St α) := h.ext rfl rfl rfl h.plain
+  have h1 : LeftAlone ce cc (vary304 s { st with statusCode := s }) := by
+    unfold vary304; split
+    · exact h0.ext rfl (hValues_add_ne _ _ (by decide)) (hValues_add_ne _ _ (by decide)) h0.plain
+    · exact h0
+  have h2 : LeftAlone ce cc (connectImmediate s (vary304 s { st with statusCode := s })) := by
+    unfold connectImmediate; split
+    · exact (la_dsWriteHeader s h1).ext rfl rfl rfl (la_dsWriteHeader s h1).plain
+    · exact h1
+  unfold rwWriteHeader informational
+  split
+  · exact la_dsWriteHeader s h2
+  · exact h2
+
+theorem la_connectDefault {ce cc : List Bytes} {st : St α} (h : LeftAlone ce cc st) :
+    LeftAlone ce cc (connectDefault st) := by
+  unfold connectDefault; split
+  · exact la_rwWriteHeader 200 h
+  · exact h
+
+theorem initOk_false_of_ineligible (cfg : Cfg α) (st : St α) (h : ineligible st.hdr = true) : initOk cfg st = false := by
+  unfold ineligible at h
+  unfold initOk
+  cases h1 : (hGet st.hdr kCE).isEmpty <;> cases h2 : isEncodeAllowed st.hdr <;> simp_all
+
+theorem la_rwInit {ce cc : List Bytes} (cfg : Cfg α) {st : St α} (h : LeftAlone ce cc st) : rwInit cfg st = st := by
+  unfold rwInit; rw [initOk_false_of_ineligible cfg st h.inel]; rfl
+
+theorem la_decide1 {ce cc : List Bytes} (cfg : Cfg α) {st : St α} (p : α) (h : LeftAlone ce cc st) :
+    LeftAlone ce cc (decide1 cfg st p) := by
+  have hs : LeftAlone ce cc (sniffType cfg st p) := by
+    unfold sniffType; split
+    · exact h.ext rfl (hValues_set_ne _ _ (by decide)) (hValues_set_ne _ _ (by decide)) h.plain
+    · exact h
+  unfold decide1
+  split
+  · split
+    · rw [la_rwInit cfg hs]; exact hs
+    · exact h
+  · exact h
+
+theorem la_commitHeader {ce cc : List Bytes} {st : St α} (h : LeftAlone ce cc st) :
+    LeftAlone ce cc (commitHeader st) := by
+  unfold commitHeader; split
+  · split
+    · exact (la_dsWriteHeader st.statusCode h).ext rfl rfl rfl (la_dsWriteHeader st.statusCode h).plain
+    · exact h.ext rfl rfl rfl h.plain
+  · exact h
+
+theorem la_dsWrite {ce cc : List Bytes} {st : St α} (p : α) (h : LeftAlone ce cc st) : LeftAlone ce cc (dsWrite st p) :=
+  h.ext rfl rfl rfl (plainOnly_cons rfl h.plain)
+
+theorem la_rwWrite {ce cc : List Bytes} (cfg : Cfg α) {st : St α} (p : α) (h : LeftAlone ce cc st) :
+    LeftAlone ce cc (rwWrite cfg st p) := by
+  unfold rwWrite; split
+  · exact h
+  · have h3 := la_commitHeader (la_decide1 cfg p (la_connectDefault h))
+    unfold emit
+    rw [h3.closed]
+    exact la_dsWrite p h3
+
+theorem la_rwFlush {ce cc : List Bytes} {st : St α} (h : LeftAlone ce cc st) : LeftAlone ce cc (rwFlush st) := by
+  have h1 := la_connectDefault h
+  unfold rwFlush; split
+  · exact h1
+  · unfold flushThrough
+    rw [h1.closed]
+    exact h1.ext rfl rfl rfl (plainOnly_cons rfl h1.plain)
+
+theorem la_foldl_dsWrite {ce cc : List Bytes} : ∀ (cs : List α) (st : St α), LeftAlone ce cc st →
+    LeftAlone ce cc (cs.foldl dsWrite st)
+  | [], _, h => h
+  | c :: cs, st, h => by rw [List.foldl_cons]; exact la_foldl_dsWrite cs _ (la_dsWrite c h)
+
+theorem la_copyRest {ce cc : List Bytes} {st : St α} (cs : List α) (h : LeftAlone ce cc st) :
+    LeftAlone ce cc (copyRest st cs) := by
+  unfold copyRest; rw [h.closed]
+  exact la_foldl_dsWrite cs _ (la_commitHeader h)
+
+theorem la_sniffLoop {ce cc : List Bytes} (cfg : Cfg α) : ∀ (cs : List α) (n : Nat) (st : St α), LeftAlone ce cc st →
+    LeftAlone ce cc (sniffLoop cfg cs n st).1
+  | [], _, _, h => by simpa [sniffLoop] using h
+  | c :: cs, n, st, h => by
+    unfold sniffLoop; split
+    · exact h
+    · exact la_sniffLoop cfg cs _ _ ((la_rwWrite cfg c h).ext rfl rfl rfl (la_rwWrite cfg c h).plain)
+
+theorem la_step {ce cc : List Bytes} (cfg : Cfg α) {st : St α} (op : Op α) (hop : op.isHeaderEdit = false)
+    (h : LeftAlone ce cc st) : LeftAlone ce cc (step cfg st op) := by
+  cases op with
+  | writeHeader s => exact la_rwWriteHeader s h
+  | write p => exact la_rwWrite cfg p h
+  | flush => exact la_rwFlush h
+  | readFrom cs =>
+    simp only [step, rwReadFrom]
+    split
+    · unfold afterSniff; split
+      · exact la_copyRest _ (la_sniffLoop cfg _ _ _ h)
+      · exact la_sniffLoop cfg _ _ _ h
+    · exact la_copyRest _ h
+  | hset k v => simp [Op.isHeaderEdit] at hop
+  | hadd k v => simp [Op.isHeaderEdit] at hop
+  | hdel k => simp [Op.isHeaderEdit] at hop
+
+theorem la_run {ce cc : List Bytes} (cfg : Cfg α) : ∀ (ops : List (Op α)) (st : St α),
+    (∀ op ∈ ops, op.isHeaderEdit = false) → LeftAlone ce cc st → LeftAlone ce cc (run cfg st ops)
+  | [], _, _, h => h
+  | op :: ops, st, hops, h => by
+    have e : run cfg st (op :: ops) = run cfg (step cfg st op) ops := rfl
+    rw [e]
+    exact la_run cfg ops _ (fun o ho => hops o (List.mem_cons_of_mem _ ho)) (la_step cfg op (hops op List.mem_cons_self) h)
+
+theorem la_rwClose {ce cc : List Bytes} (cfg : Cfg α) {st : St α} (h : LeftAlone ce cc st) :
+    LeftAlone ce cc (rwClose cfg st) := by
+  have h1 : LeftAlone ce cc (closeHeader cfg st) := by
+    unfold closeHeader; split
+    · split
+      · rw [la_rwInit cfg h]; exact la_commitHeader h
+      · exact la_commitHeader h
+    · exact h
+  unfold rwClose
+  rw [h1.closed]
+  exact h1
+
+end
+end CaddyModel.C15
